@@ -1,10 +1,17 @@
-#!/usr/bin/env python3
+#!/opt/veriftools/pyvenv/bin/python
 """Generate /verif/MANIFEST.json from the table below (kept valid at all times)."""
 import json, os, subprocess
 V = os.path.dirname(os.path.dirname(os.path.abspath(__file__)))
 ALL = [f'C{i:02d}' for i in range(1, 21)]
 # property -> (technique, level text, level note)
-CLAIMED = json.load(open(os.path.join(V, 'tools', 'claims.json')))
+import sys, importlib
+sys.path.insert(0, V)
+TECH = json.load(open(os.path.join(V, 'tools', 'claims.json')))
+CLAIMED = {}
+for p, t in TECH.items():
+    mod = importlib.import_module(f'sa.rules.{p.lower()}')
+    CLAIMED[p] = {'technique': t, 'text': mod.EXPLANATION,
+                  'note': 'Trusted: ' + '; '.join(mod.TRUSTED) + '. Assumes: ' + '; '.join(mod.ASSUMPTIONS)}
 NA = json.load(open(os.path.join(V, 'tools', 'not_applicable.json')))
 fix = subprocess.run(['git', '-C', '/repo', 'log', '--format=%h %s', '250308d..HEAD'],
                      capture_output=True, text=True).stdout.strip().splitlines()
